@@ -134,9 +134,11 @@ func TestC13Race(t *testing.T) {
 		iters = 150
 	}
 	var n int64
+	var all []schedx.Conc
 	for _, c := range pairConcs(env.Deep()) {
-		n += c.conc(t, false).FreeRunConc(rep, env, nil, iters)
+		all = append(all, c.conc(t, false))
 	}
+	n = schedx.FreeRunAll(rep, env, all, false, iters)
 	rep.Add(n, 0, 0, 0)
 	rep.OutcomeN("free-running race-detector pass [iterations]", n)
 }
